@@ -1,5 +1,5 @@
 ----------------------------- MODULE InputNorm -----------------------------
-(* Workflow input validation and normalisation (C19): a fixed input schema with one field per schema shape
+(* Workflow input validation and normalisation (C19): two input schemas - one that declares no property at all, and one with one field per schema shape
    (required string, optional integer with default, optional bool, optional list of integers, optional nested
    object with a required and a defaulted field) and, per field, the kinds of value a YAML input file can give
    it (every YAML scalar reaches the engine as a string).  For a batch of documents (one kind per field) TLC
@@ -15,6 +15,8 @@ BKinds == {"absent", "true", "false", "yes", "off", "five", "word", "list"}
 LKinds == {"absent", "empty", "nums", "mixed", "scalar"}
 OKinds == {"absent", "min", "full", "noreq", "extra", "scalar", "badm"}
 XKinds == {"absent", "present"}      \* an undeclared top-level key
+WKinds == {"map", "list", "scalar"}   \* what the whole document is
+Schemas == {"full", "empty"}          \* "empty": an input object that declares no properties - only the empty map is valid
 
 SValid(k) == k \in {"str", "numstr"}                   \* required: absent is invalid
 IValid(k) == k \in {"absent", "num", "neg"}
@@ -22,7 +24,10 @@ BValid(k) == k \in {"absent", "true", "false", "yes", "off"}
 LValid(k) == k \in {"absent", "empty", "nums"}
 OValid(k) == k \in {"absent", "min", "full"}
 XValid(k) == k = "absent"
-Valid(d) == SValid(d.s) /\ IValid(d.i) /\ BValid(d.b) /\ LValid(d.l) /\ OValid(d.o) /\ XValid(d.x)
+AllAbsent(d) == d.s = "absent" /\ d.i = "absent" /\ d.b = "absent" /\ d.l = "absent" /\ d.o = "absent" /\ d.x = "absent"
+Valid(d) == /\ d.w = "map"
+            /\ IF d.schema = "empty" THEN AllAbsent(d)
+               ELSE SValid(d.s) /\ IValid(d.i) /\ BValid(d.b) /\ LValid(d.l) /\ OValid(d.o) /\ XValid(d.x)
 
 L(p, v) == <<p, v>>
 SNorm(k) == CASE k = "str" -> {L(<<"s">>, "s:hello")} [] k = "numstr" -> {L(<<"s">>, "s:12")} [] OTHER -> {}
@@ -32,13 +37,13 @@ BNorm(k) == CASE k \in {"true", "yes"} -> {L(<<"b">>, "b:true")} [] k \in {"fals
 LNorm(k) == CASE k = "empty" -> {L(<<"l">>, "e:[]")} [] k = "nums" -> {L(<<"l", "0">>, "i:1"), L(<<"l", "1">>, "i:2")} [] OTHER -> {}
 ONorm(k) == CASE k = "min"  -> {L(<<"o", "k">>, "s:v"), L(<<"o", "m">>, "i:1")}     \* nested default
               [] k = "full" -> {L(<<"o", "k">>, "s:v"), L(<<"o", "m">>, "i:4")} [] OTHER -> {}
-Norm(d) == SNorm(d.s) \cup INorm(d.i) \cup BNorm(d.b) \cup LNorm(d.l) \cup ONorm(d.o)
+Norm(d) == IF d.schema = "empty" THEN {} ELSE SNorm(d.s) \cup INorm(d.i) \cup BNorm(d.b) \cup LNorm(d.l) \cup ONorm(d.o)
 
-AllDocs == [s : SKinds, i : IKinds, b : BKinds, l : LKinds, o : OKinds, x : XKinds]
+AllDocs == [s : SKinds, i : IKinds, b : BKinds, l : LKinds, o : OKinds, x : XKinds, w : WKinds, schema : Schemas]
 ASSUME \A k \in DOMAIN Docs : Docs[k] \in AllDocs
 \* the normal form of a valid document is a function of the path (no two values for one path) and total on the
 \* fields that have a value or a default
-WellFormed == \A k \in DOMAIN Docs : Valid(Docs[k]) =>
+WellFormed == \A k \in DOMAIN Docs : (Valid(Docs[k]) /\ Docs[k].schema = "full") =>
                  /\ \A a, b \in Norm(Docs[k]) : a[1] = b[1] => a = b
                  /\ \E a \in Norm(Docs[k]) : a[1] = <<"s">>
                  /\ \E a \in Norm(Docs[k]) : a[1] = <<"i">>
